@@ -21,6 +21,15 @@ CORE_UNITS = ['lltdResponder/lltdBlock.c', 'lltdResponder/lltdAutomata.c',
               'lltdResponder/lltdTlvOps.c', 'lltdResponder/lltdWire.c']
 
 
+class Defect(Exception):
+    """A violation found while the analysis was being set up (e.g. a constructor that leaves a table field uninitialised):
+    reported as a violation of the running check, not as a broken analysis."""
+
+    def __init__(self, key, msg, function=None, file=None):
+        Exception.__init__(self, msg)
+        self.key, self.msg, self.function, self.file = key, msg, function, file
+
+
 class AnalysisBroken(Exception):
     """Raised when the machinery cannot analyse what it must (exit 2)."""
 
